@@ -114,9 +114,16 @@ def cli_outputs(case):
         mp.write_text(remap.map_agp_text(case))
         out = d / "out" / f"x.1.{out_fmt}"
         out.parent.mkdir()
-        res = remap.run_cli_inprocess(["-a", inp, "-p", mp, "-o", out, "-c", case.get("prefix", "SUPER_")])
-        if res.exit_code != 0:
-            raise CliError(f"exit {res.exit_code}: {type(res.exception).__name__}")
+        args = ["-a", inp, "-p", mp, "-o", out, "-c", case.get("prefix", "SUPER_")]
+        if case.get("optimize"):
+            # the real command in a fresh interpreter started with -O (assert statements compiled away)
+            r = remap.run_cli_subprocess(args, py_flags=("-O",))
+            if r.returncode != 0:
+                raise CliError(f"exit {r.returncode} (python -O)")
+        else:
+            res = remap.run_cli_inprocess(args)
+            if res.exit_code != 0:
+                raise CliError(f"exit {res.exit_code}: {type(res.exception).__name__}")
         scaffolds = []
         reader = ref.read_agp if out_fmt == "agp" else ref.read_tpf
         n_files = 0
@@ -153,13 +160,35 @@ def cases(draw, cli=False):
     if cli:
         case["in_fmt"] = draw(st.sampled_from(["tpf", "agp"]))
         case["out_fmt"] = draw(st.sampled_from(["agp", "tpf"]))
+        if draw(st.integers(0, 5)) == 0:
+            case["optimize"] = True
+    elif draw(st.integers(0, 9)) == 0:
+        case["debug_log"] = True
     return case
+
+
+@st.composite
+def tagged_cli_cases(draw):
+    """tagged maps through the CLI: two haplotypes, Primary mode with a merged all_haplotigs file, Target mode, piece tags"""
+    mode = draw(st.integers(0, 2))
+    if mode == 0:
+        c = draw(gen.tagged_case(max_scaffolds=6, max_contigs=4, two_haplotypes=True, primary_mode=True, unprefixed_in_primary=True, piece_tag_weight=4))
+    elif mode == 1:
+        c = draw(gen.tagged_case(max_scaffolds=5, max_contigs=4, two_haplotypes=True, primary_mode=False, piece_tag_weight=4))
+    else:
+        c = draw(gen.tagged_case(max_scaffolds=5, max_contigs=4, two_haplotypes=False, piece_tag_weight=3))
+    c["kind"] = ["primary_mode", "two_haplotypes", "single_haplotype_tagged"][mode]
+    c["in_fmt"] = draw(st.sampled_from(["tpf", "agp"]))
+    c["out_fmt"] = draw(st.sampled_from(["agp", "tpf"]))
+    return c
 
 
 SUBS = [
     Sub("api", kind="hyp", strategy=cases, body=body_api,
         budget={"quick": 24000, "thorough": 800000},
         desc="BuildAssembly.remap_to_input_assembly + assemblies_with_scaffolds_fused, partition oracle over all returned assemblies"),
+    Sub("cli_tagged", kind="hyp", strategy=tagged_cli_cases, body=body_cli,
+        budget={"quick": 320, "thorough": 5000}, desc="tagged maps (Primary mode with merged all_haplotigs file, two haplotypes, piece tags) through pretext-to-asm: partition oracle over ALL files written"),
     Sub("cli", kind="hyp", strategy=lambda: cases(cli=True), body=body_cli,
         budget={"quick": 320, "thorough": 4000},
         desc="pretext-to-asm CLI (in-process) on TPF/AGP inputs writing AGP/TPF; written files re-read with an independent reader"),
